@@ -80,7 +80,7 @@ static const char* g_curdesc = "";
 static void on_stuck(const sched_result* r)
 {
     char key[400];
-    if (!r->deadlock && !r->livelock) { snprintf(key, sizeof key, "POOL_free-returned-with-%s", r->blocked); v_viol(key, "worker threads still alive after POOL_free returned; program: %s", g_curdesc); v_dump(); return; }
+    if (!r->deadlock && !r->livelock) { snprintf(key, sizeof key, "POOL_free-returned-with-%s", r->blocked); v_viol(key, "worker threads still alive after the pool was destroyed (POOL_free, or the failure path of POOL_create); program: %s", g_curdesc); v_dump(); return; }
     snprintf(key, sizeof key, "%s:%s", r->deadlock ? "deadlock" : "livelock", r->blocked);
     v_viol(key, "no runnable thread while some are unfinished (legal POSIX schedule, replayable from the seed); steps=%llu program: %s", (unsigned long long)r->steps, g_curdesc);
     v_dump();
@@ -99,7 +99,20 @@ static void run_case(long idx, long nsched)
     int const mode = vr_chance(&sr, 1, 3) ? SCHED_PCT : SCHED_UNIFORM; int const depth = (int)vr_u(&sr, 4);
     sched_begin(vr_next(&sr), mode, depth, 150, 200000, (int)vr_u(&sr, 2) * 20);
     sched_set_op("POOL_create");
+    /* one program in five: the system refuses the k-th worker thread (EAGAIN, as under a thread limit). POOL_create must then fail, and every worker it had
+     * already started must have been terminated and joined by the time it returns (sched_end sees threads that are still alive). k = nthreads + 1: no fault. */
+    int const failAt = (progId % 5 == 4) ? 1 + (int)vr_u(&pr, (uint32_t)P.nthreads + 1) : 0;
+    if (failAt) sched_fail_create_at(failAt);
     g_pool = POOL_create((size_t)P.nthreads, (size_t)P.queue);
+    sched_fail_create_at(0);
+    if (failAt && failAt <= P.nthreads) {
+        v_stat("create_faults", 1);
+        if (g_pool) { v_viol("POOL_create-succeeded-although-a-worker-thread-could-not-be-started", "threads=%d failed creation #%d", P.nthreads, failAt); POOL_free(g_pool); g_pool = NULL; }
+        g_curdesc = "POOL_create with a refused worker thread";
+        sched_set_op("POOL_create(failed)"); sched_result R0; sched_end(&R0);      /* exits through on_stuck when a started worker survives */
+        v_stat("schedules", 1); note_schedule(R0.hash ^ vr_mix((uint64_t)progId) ^ 0x5151); v_cell("create_fault", "threads=%d fail=%d", P.nthreads, failAt);
+        return;
+    }
     if (!g_pool) { fprintf(stderr, "POOL_create failed\n"); exit(2); }
     pthread_t th[MAXPOSTERS];
     for (int p = 1; p < P.nposters; p++) pthread_create(&th[p], NULL, poster_thread, (void*)(intptr_t)p);
